@@ -197,6 +197,13 @@ def run_columns(ctx):
         for k, data in enumerate(rng.sample(multi, 3)):
             with open(os.path.join(root, "multi%d.log" % k), "wb") as f:
                 f.write(data)
+        # links to regular files (a script, a multi-block file; directly and through a second link): the content columns of
+        # a link describe the file it leads to, all of them alike
+        with open(os.path.join(root, "tool.sh"), "wb") as f:
+            f.write(b"#!/bin/sh\necho tool\n")
+        for lname, ltarget in (("tool", "tool.sh"), ("tool2", "tool"), ("notes", "multi0.log"), ("tool_abs", os.path.join(root, "tool.sh"))):
+            if not os.path.lexists(os.path.join(root, lname)):
+                os.symlink(ltarget, os.path.join(root, lname))
         xattr_paths = set()
         for dp, ds, fs in os.walk(root):
             for f in fs:
@@ -254,6 +261,10 @@ def run_columns(ctx):
                            has_xattrs="true" if p in xattr_paths else "false")
             elif stat.S_ISDIR(ls.st_mode):
                 exp.update(sha1="", sha256="", line_count="", is_shebang="false")
+            elif islnk and os.path.isfile(p) and os.path.dirname(os.path.realpath(p)).startswith(os.path.realpath(ctx.scratch)):
+                data = open(p, "rb").read()          # through the link(s)
+                exp.update(sha1=hashlib.sha1(data).hexdigest(), sha256=hashlib.sha256(data).hexdigest(), line_count=str(data.count(b"\n")),
+                           is_shebang="true" if data[:2] == b"#!" else "false")
             bad = [(k, v[k], e) for k, e in exp.items() if v.get(k) != e]
             if bad:
                 ctx.violation("impl-violates-spec", "entry %r: column %s is %r, the operating system says %r" % (v["path"], bad[0][0], bad[0][1], bad[0][2]), input=case, all_mismatches=bad[:6])
@@ -421,7 +432,7 @@ def run(ctx):
     m = run_modes(ctx)
     c = run_columns(ctx)
     ctx.coverage["columns_part"] = dict(queries=c["n"], entries_checked=c["ok"], files_with_capabilities_checked_against_getcap=c.get("capability_files", 0), extension_verdicts_equal_to_regenerated_has_extension=c.get("ext_model_agreed", 0), distinct_entries=len(c["distinct"]), samples=c["samples"],
-                                        rule="random trees (files with contents: empty, shebang, no trailing newline, binary, > 64 KiB, 9000 newlines, newline-rich contents of 40 KB - 250 KB whose length is not a multiple of a read block; mtimes incl. 0 and 2038+; owners without a name; xattrs; sockets; links incl. dangling; dot-files, several dots, upper-case extensions) - columns path,name,ext,dir,abspath,absdir,size,uid,gid,user,group,inode,hardlinks,blocks,modified,is_hidden,is_empty, the eight extension classes (default lists read from config.rs, and a configuration file overriding every list with plain, compound and dot-less endings), sha1/sha256/sha512/sha3, line_count, is_shebang, has_xattrs, capabilities / has_capabilities() / has_capability(c) for the 41 Linux capabilities x flag combinations against getcap, CONTAINS(s) with needles inside a line and across line breaks compared with os.lstat, pwd/grp, hashlib and the directory contents")
+                                        rule="random trees (files with contents: empty, shebang, no trailing newline, binary, > 64 KiB, 9000 newlines, newline-rich contents of 40 KB - 250 KB whose length is not a multiple of a read block; mtimes incl. 0 and 2038+; owners without a name; xattrs; sockets; links incl. dangling; dot-files, several dots, upper-case extensions) - columns path,name,ext,dir,abspath,absdir,size,uid,gid,user,group,inode,hardlinks,blocks,modified,is_hidden,is_empty, the eight extension classes (default lists read from config.rs, and a configuration file overriding every list with plain, compound and dot-less endings), sha1/sha256/sha512/sha3, line_count, is_shebang, has_xattrs, capabilities / has_capabilities() / has_capability(c) for the 41 Linux capabilities x flag combinations against getcap, CONTAINS(s) with needles inside a line and across line breaks compared with os.lstat, pwd/grp, hashlib and the directory contents; the content columns of a link to a regular file (directly or through a second link) are those of the file")
     ctx.coverage.update(
         evaluations=m["evaluations"] + c["ok"], distinct_nontrivial=m["distinct"] + len(c["distinct"]),
         traces_validated_against_impl=m["agreed"],
